@@ -42,13 +42,15 @@ static int region_find(uintptr_t a) {  /* first region with end > a */
   return lo;
 }
 
+/* (plain loops instead of memmove: libc's memmove is intercepted by ThreadSanitizer even in this uninstrumented TU, and the
+   table is protected by vf_os_lock, which the sanitizer cannot see) */
 static void region_insert_at(int i, vf_region_t r) {
   if (vf_os.nregions >= VF_MAX_REGIONS) die("region table full");
-  memmove(&vf_os.regions[i + 1], &vf_os.regions[i], (size_t)(vf_os.nregions - i) * sizeof(vf_region_t));
+  for (int k = vf_os.nregions; k > i; k--) vf_os.regions[k] = vf_os.regions[k - 1];
   vf_os.regions[i] = r; vf_os.nregions++;
 }
 static void region_delete_at(int i) {
-  memmove(&vf_os.regions[i], &vf_os.regions[i + 1], (size_t)(vf_os.nregions - i - 1) * sizeof(vf_region_t));
+  for (int k = i; k + 1 < vf_os.nregions; k++) vf_os.regions[k] = vf_os.regions[k + 1];
   vf_os.nregions--;
 }
 /* make sure `a` is a region boundary if it lies inside a region */
@@ -195,11 +197,12 @@ void* vf_real_mmap(void* addr, size_t len, int prot, int flags, int fd, long off
 int   vf_real_munmap(void* addr, size_t len) { return munmap(addr, len); }
 
 /* Under the schedule explorer a call that changes the address space is a visible operation on a resource shared by all
- * threads (a late madvise of one thread can wipe what another thread stores there): a scheduling point on one pseudo-address.
+ * threads (a late madvise of one thread can wipe what another thread stores there): a scheduling point on one pseudo-address,
+ * always a choice point (it conflicts with the plain memory accesses of the other threads, which are not instrumented).
  * Outside an exploration vf_point returns at once. */
-int vf_point(int kind, const volatile void* addr);
+int vf_point_always(int kind, const volatile void* addr);
 static volatile char vf_os_token;
-#define VF_OS_POINT() ((void)vf_point(3 /* VF_RMW */, &vf_os_token))
+#define VF_OS_POINT() ((void)vf_point_always(3 /* VF_RMW */, &vf_os_token))
 
 void* vf_os_mmap(void* addr, size_t len, int prot, int flags, int fd, long off) {
   VF_OS_POINT();
